@@ -453,7 +453,9 @@ pub fn generate(group: &str, r: &mut Rng, n: usize) -> Vec<Value> {
             for k in 0..n {
                 let inst = rand_instance(r, &DEFAULT);
                 let st = inst.state(r, false);
-                let ops = vec![json!({"op":"evaluate","st":st_json(&st)}), json!({"op":"as_min"}), json!({"op":"evaluate","st":st_json(&st)}), json!({"op":"as_min"})];
+                // every third conversion runs on the objective scaled down by 2^60 (see exec_inst: "downscale")
+                let first = if k % 3 == 2 { json!({"op":"as_min","downscale":60}) } else { json!({"op":"as_min"}) };
+                let ops = vec![json!({"op":"evaluate","st":st_json(&st)}), first, json!({"op":"evaluate","st":st_json(&st)}), json!({"op":"as_min"})];
                 out.push(json!({"ev":"seq","case":format!("d-asmin-seq-{k}"),"src":"drive","in":{"inst":inst.json,"ops":ops}}));
             }
         }
